@@ -32,6 +32,10 @@ let parse_obs toks =
   | ["POTHER"] -> XPanicOther
   | ["VAL"; h] -> XVal (bytes_of_hex h)
   | ["CFAIL"] -> XCompileFail
+  | ["COMPILES"] -> XCompiles
+  | ["SPLIT"; a; b; c; d; e; f] ->
+    let i x = n_of_int (int_of_string x) in
+    XSplit { pre_addr = i a; pre_len = i b; mid_addr = i c; mid_len = i d; suf_addr = i e; suf_len = i f }
   | _ -> XBad
 
 let show_obs = function
@@ -42,12 +46,15 @@ let show_obs = function
   | XVal bs -> "VAL " ^ hex_of_bytes bs
   | XErrVal c -> Printf.sprintf "ERRVAL %d" (int_of_n c)
   | XCompileFail -> "CFAIL"
+  | XCompiles -> "COMPILES"
+  | XSplit r -> Printf.sprintf "SPLIT %d %d %d %d %d %d" (int_of_n r.pre_addr) (int_of_n r.pre_len)
+                  (int_of_n r.mid_addr) (int_of_n r.mid_len) (int_of_n r.suf_addr) (int_of_n r.suf_len)
   | XUB -> "UB"
   | XBad -> "BAD"
 
 let words s = List.filter (fun w -> w <> "") (String.split_on_char ' ' (String.trim s))
 
-let is_mut_fn fn = List.mem fn [2; 4; 6; 8; 10; 12; 14; 22; 24; 26; 28; 30; 32; 42; 44]
+let is_mut_fn fn = List.mem fn [2; 4; 6; 8; 10; 12; 14; 16; 22; 24; 26; 28; 30; 32; 42; 44]
 let is_must fn = List.mem fn [41; 42; 43; 44; 45]
 let is_panicking fn = List.mem fn [3; 4; 7; 8; 11; 12; 23; 24; 27; 28; 31; 32; 52; 54; 62; 64]
 
@@ -78,6 +85,8 @@ let () =
              if not (monitor_c02 k obs) then viol "C02" "outcome-violates-success-iff-or-untruthful-error";
              if not (monitor_c03 k obs) then viol "C03" "by-value-result-not-the-source-bytes";
              if not (monitor_c07 k obs) then viol "C07" "checked-outcome-violates-validity-iff";
+             if fni >= 141 && fni <= 145 && not (monitor_c14_verdict k obs) then
+               viol "C14" "compile-verdict-differs-from-infallibility-of-the-runtime-cast";
              let flags = int_of_string (String.trim f) in
              if flags land 1 = 0 then viol "C01" "memory-outside-footprint-modified";
              if is_mut_fn fni && flags land 2 = 0 then viol "C01" "write-through-view-misplaced";
